@@ -17,7 +17,7 @@ import (
 	"verifharness/lib"
 )
 
-var timestampRoutes = []string{"zone+1", "zone-7", "zone0", "local", "mono", "new-int"}
+var timestampRoutes = []string{"zone+1", "zone-7", "zone0", "local", "mono", "new-int", "mono-zone+1", "mono-utc", "mono-stripped", "mono-add0"}
 var binaryRoutes = []string{"b64", "array", "spare-cap"}
 var regexpRoutes = []string{"compiled"}
 var arrayRoutes = []string{"add", "addall", "addall-entry", "slice", "reject", "map", "spare-cap", "entry-asarray", "hash-keys", "delete"}
@@ -54,6 +54,10 @@ func routesOf(k string) []string {
 		return entryRoutes
 	case "Hash":
 		return hashRoutes
+	case "SemVer":
+		return semVerRoutes
+	case "SemVerRange":
+		return semVerRangeRoutes
 	case "TName":
 		return nameRoutes
 	case "Deferred":
@@ -73,11 +77,16 @@ func (v *V) withRoute(r string) *V {
 // routeApplicable: the route can make exactly the described value
 func (v *V) routeApplicable() bool {
 	switch v.K {
+	case "SemVer":
+		if v.S == "" {
+			return v.R == "typeset-attr" // the absent version
+		}
+		return v.R != "typeset-attr" || v.S == "1.0.0"
 	case "TName":
 		return v.nameExpr() != nil
 	case "Timestamp":
 		switch v.R {
-		case "mono":
+		case "mono", "mono-zone+1", "mono-utc", "mono-stripped", "mono-add0":
 			// a wall clock reading with a monotonic reading covers the years 1885-2157
 			return v.I > -2000000000 && v.I < 4000000000
 		case "new-int":
@@ -176,13 +185,16 @@ func (v *V) buildRoute(c px.Context) px.Value {
 		case "local":
 			return types.WrapTimestamp(t) // time.Unix returns a local time
 		case "mono":
-			// time.Now() carries a monotonic clock reading, Add keeps it
-			now := time.Now()
-			m := now.Add(t.Sub(now))
-			if !m.Equal(t) {
-				panic("route mono: cannot reach the instant")
-			}
-			return types.WrapTimestamp(m)
+			return types.WrapTimestamp(monoTime(t))
+		case "mono-zone+1":
+			// Add keeps the monotonic reading; In, UTC and Round(0) strip it: the twins without a reading
+			return types.WrapTimestamp(monoTime(t).In(time.FixedZone("CET", 3600)))
+		case "mono-utc":
+			return types.WrapTimestamp(monoTime(t).UTC())
+		case "mono-stripped":
+			return types.WrapTimestamp(monoTime(t).Round(0))
+		case "mono-add0":
+			return types.WrapTimestamp(monoTime(t).Add(time.Second).Add(-time.Second))
 		case "new-int":
 			return px.New(c, types.DefaultTimestampType(), types.WrapInteger(v.I))
 		}
@@ -204,6 +216,8 @@ func (v *V) buildRoute(c px.Context) px.Value {
 		if v.R == "compiled" {
 			return types.WrapRegexp2(regexp.MustCompile(string(v.S)))
 		}
+	case "SemVer", "SemVerRange":
+		return v.buildVersionRoute(c)
 	case "Arr":
 		es := make([]px.Value, len(v.Vs))
 		for i, e := range v.Vs {
@@ -513,4 +527,15 @@ func unrouted(d *V) *V {
 		}
 	}
 	return &c
+}
+
+// monoTime: the instant t as a time.Time that carries a monotonic clock reading (time.Now is used as the carrier of the
+// reading only: the wall clock reading of the result is t, Add keeps the reading)
+func monoTime(t time.Time) time.Time {
+	now := time.Now()
+	m := now.Add(t.Sub(now))
+	if !m.Equal(t) {
+		panic("route mono: cannot reach the instant")
+	}
+	return m
 }
